@@ -340,6 +340,28 @@ func genRaceDirected(r *Rng, id int) *Scenario {
 	return sc
 }
 
+// waiter-directed (race tier): block waiters (Chain.BlockWaiter) for heights the scenario reaches,
+// some awaited and some dropped before the height arrives, while blocks move the tip and the
+// chain state is queried.
+func genWaiterDirected(r *Rng, id int) *Scenario {
+	sc := &Scenario{ID: id, Stream: "waiter-directed", Seed: r.Next(), Trunk: 16, Branches: map[string]int{"A": 4, "B": 5}, SampleMs: 0, Expect: "completes"}
+	sc.Setup = chain("T", 1, 16)
+	var wa, wb []Event
+	for i := 0; i < 6; i++ {
+		how := []string{"drop", "drop", "wait"}[r.Intn(3)]
+		e := Event{K: "waiter", Ms: 15 + r.Intn(7), API: how} // heights 15..21: already reached, reached later, never reached
+		if r.Bool() {
+			wa = append(wa, e)
+		} else {
+			wb = append(wb, e, Event{K: "sleep", Ms: r.Intn(3)})
+		}
+	}
+	reads := randReads(r, 10, []string{"G", "T4", "T16", "A18"})
+	blocks := append(chain("A", 17, 20), chain("B", 17, 21)...)
+	sc.Workers = []Worker{{Kind: "read", Events: wa}, {Kind: "read", Events: wb}, {Kind: "block", Events: blocks}, {Kind: "read", Events: reads}}
+	return sc
+}
+
 // errcache-directed (race tier): several submitters keep re-submitting the same rejected
 // transactions (each re-submission looks the transaction up in the pool's error cache) while
 // valid ones are submitted and the pool is queried.
@@ -682,7 +704,13 @@ func runC37(c *Ctx) error {
 	}
 	sk, err := loadSkeleton(root, repo)
 	if err != nil {
-		return err
+		// the translator no longer accepts the source (the driver reports that as a broken
+		// obligation): still run every scenario so that the watchdog and the race detector can
+		// produce a concrete failing input; only the model correspondence is skipped
+		fmt.Fprintln(os.Stderr, "c37: skeleton unavailable, running the oracles only:", err)
+		c.Stats.Count("skeleton-unavailable")
+		sk = &skeleton{at: map[string]map[string]int{}, acc: map[string]map[string]int{}, halt: map[string]int{}}
+		tables = map[cfgKey]string{}
 	}
 	c.Stats.Rule = "a scenario is non-trivial when at least two workers ran concurrently against the node and at least one sampled dump (or the standstill dump) placed a goroutine at a skeleton operation other than the idle points of the two server loops; distinctness by (stream, workers, events)"
 
@@ -711,6 +739,10 @@ func runC37(c *Ctx) error {
 	}
 	for i := 0; i < c.N(2, 5); i++ {
 		raceScs = append(raceScs, genErrCacheDirected(c.Rng, id))
+		id++
+	}
+	for i := 0; i < c.N(2, 5); i++ {
+		raceScs = append(raceScs, genWaiterDirected(c.Rng, id))
 		id++
 	}
 	for i := 0; i < c.N(1, 4); i++ {
